@@ -203,7 +203,9 @@ def run_once(scn, shutdown_at, collect_instants=False):
         # shutdown_at: virtual time, or [virtual time, k] = k further event-loop iterations into that instant
         # (between the delivery of a datagram and the task steps it wakes up)
         micro = 0
+        submit_with_shutdown = False
         if isinstance(shutdown_at, (list, tuple)):
+            submit_with_shutdown = len(shutdown_at) > 2 and bool(shutdown_at[2])
             shutdown_at, micro = float(shutdown_at[0]), int(shutdown_at[1])
         T = shutdown_at if shutdown_at is not None else 12.0
         net.at(max(0.0, T - 0.5), yreq)
@@ -252,7 +254,17 @@ def run_once(scn, shutdown_at, collect_instants=False):
 
         t0 = net.loop.time()
         try:
-            if micro >= 0:
+            if submit_with_shutdown:
+                # the application submits a request and awaits shutdown() in the same coroutine step: the request has not
+                # even begun to be handed over to the lower layers when the shutdown starts
+                labels.add("request-submitted-with-shutdown")
+
+                async def submit_and_shut_down():
+                    xreq("ok1", tag="submitted-with-shutdown")
+                    await x.ctx.shutdown()
+
+                net.loop.run_until_complete(submit_and_shut_down())
+            elif micro >= 0:
                 net.shutdown_context(x)
             else:
                 sd_task = net.loop.create_task(x.ctx.shutdown())
@@ -363,7 +375,12 @@ def instants_for(scn, cap):
     if len(mid) > cap:
         step = len(mid) / cap
         mid = [mid[int(i * step)] for i in range(cap)]
-    return pts + mid
+    # ... and with a request submitted in the very call that starts the shutdown
+    sub = [[t, 0, 1] for t in srt if t > 0]
+    if len(sub) > max(4, cap // 8):
+        step = len(sub) / max(4, cap // 8)
+        sub = [sub[int(i * step)] for i in range(max(4, cap // 8))]
+    return pts + mid + sub
 
 
 def run_case(case, want_trace=False):
